@@ -9,7 +9,9 @@ behavioural goes through the correspondence harness (tie B) -- with one exceptio
 reads the ORDER OF STATEMENTS of the per-flow functions (exit paths, C15) and refuses every statement
 it does not recognise, and gen_loop_shapes() reads the SHAPE of the long-lived service loops (which failure ends which
 loop, C08) with the same strictness, and gen_udp_adapters() reads WHAT THE PER-PROTOCOL UDP ADAPTER FUNCTIONS RETURN (binding key,
-outgoing datagram, reply label; C02 / C09) by evaluating their bodies symbolically.  VERIF_REPO=<dir> reads another source tree than /repo.
+outgoing datagram, reply label; C02 / C09) by evaluating their bodies symbolically, and gen_readme() reads the MARKDOWN of /repo/README.md
+(Transport and Ciphers tables, the `mode` / `protocol` option lists, the notes of the optional sections; C16) as plain data, so that the
+documented side of C16 is regenerated too.  VERIF_REPO=<dir> reads another source tree than /repo.
 """
 import os, re, sys, json
 
@@ -2807,6 +2809,238 @@ def gen_udp_adapters():
     return header + "\n".join(L) + "\n", facts
 
 
+# ------------------------------------------------------------------------------------------
+# C16: the DOCUMENTED side.  /repo/README.md -> Generated/Readme.v.  Only the markdown is parsed (tables, the numbered
+# `mode` list, the `> key: text` notes); every cell is emitted as the text / tick it is, nothing is interpreted and
+# nothing is corrected (the README's own spelling `ucp` in the last Transport row stays `ucp`).  Proofs/ReadmeFacts.v
+# compares the hand transcription Spec/Readme.v with this file.
+_MD_TICK = "✔"          # the check mark the Transport table uses
+_MD_README = "README.md"
+
+
+def _md_fail(msg):
+    raise AnchorMissing("%s: %s" % (_MD_README, msg))
+
+
+def _md_lines():
+    """README lines outside fenced code blocks (a fence is a line whose first non-blank text is ```)"""
+    out, fenced = [], False
+    try:
+        text = src(_MD_README)
+    except OSError as e:
+        _md_fail("cannot be read (%s)" % e.__class__.__name__)
+    for ln in text.splitlines():
+        if ln.strip().startswith("```"):
+            fenced = not fenced
+            continue
+        if not fenced:
+            out.append(ln.rstrip())
+    if fenced:
+        _md_fail("unterminated ``` fence")
+    return out
+
+
+def _md_section(lines, title):
+    """the lines of the one section whose heading is exactly `title`, up to the next heading"""
+    hits = [i for i, ln in enumerate(lines) if re.fullmatch(r"#{1,6}\s+%s\s*" % re.escape(title), ln)]
+    if len(hits) != 1:
+        _md_fail("expected exactly one heading %r, found %d" % (title, len(hits)))
+    j = hits[0] + 1
+    while j < len(lines) and not re.match(r"#{1,6}\s", lines[j]):
+        j += 1
+    return lines[hits[0] + 1:j]
+
+
+def _md_row(ln, what):
+    t = ln.strip()
+    if "\\|" in t:
+        _md_fail("%s: escaped `|` in a table row is not understood: %r" % (what, ln))
+    if len(t) < 2 or not (t.startswith("|") and t.endswith("|")):
+        _md_fail("%s: a table row must start and end with `|`: %r" % (what, ln))
+    return [c.strip() for c in t[1:-1].split("|")]
+
+
+def _md_table(sec, what):
+    """(header cells, body rows, the other non-blank lines) of a section holding exactly one pipe table"""
+    idx = [i for i, ln in enumerate(sec) if ln.strip().startswith("|")]
+    if not idx:
+        _md_fail("%s: no table" % what)
+    if idx != list(range(idx[0], idx[-1] + 1)):
+        _md_fail("%s: more than one table (or a table interrupted by other lines)" % what)
+    if len(idx) < 3:
+        _md_fail("%s: a table needs a header row, a delimiter row and at least one body row" % what)
+    rows = [_md_row(sec[i], what) for i in idx]
+    header, delim, body = rows[0], rows[1], rows[2:]
+    if len(delim) != len(header) or not all(re.fullmatch(r":?-+:?", c) for c in delim):
+        _md_fail("%s: second table line is not a delimiter row matching the header: %r" % (what, sec[idx[1]]))
+    for r, i in zip(body, idx[2:]):
+        if len(r) != len(header):
+            _md_fail("%s: row with %d cells under a header of %d: %r" % (what, len(r), len(header), sec[i]))
+    other = [ln.strip() for k, ln in enumerate(sec) if k not in idx and ln.strip()]
+    return header, body, other
+
+
+def _md_code_spans(cell, what):
+    """a cell made of `code` spans separated by blanks (or empty) -> the list of span texts"""
+    if not re.fullmatch(r"(?:`[^`]+`\s*)*", cell):
+        _md_fail("%s: cell %r is not a sequence of `code` spans" % (what, cell))
+    return re.findall(r"`([^`]+)`", cell)
+
+
+def _md_ident(s, what):
+    if not re.fullmatch(r"[A-Za-z0-9][A-Za-z0-9_.\-]*", s):
+        _md_fail("%s: %r is not a plain name" % (what, s))
+    return s
+
+
+def _md_pairs(xs):
+    return "[" + "; ".join("(%s, %s)" % (coq_string(a), coq_string(b)) for a, b in xs) + "]"
+
+
+def gen_readme():
+    L, facts = [], {}
+    lines = _md_lines()
+
+    # --- "Transport": | Local-Peer | Client-Server | <one column per protocol> | ; key cells are one `code` span, the others a tick or empty
+    what = "Transport table"
+    header, body, _other = _md_table(_md_section(lines, "Transport"), what)
+    if len(header) < 3 or any(not h for h in header):
+        _md_fail("%s: expected two key columns and at least one protocol column, all titled; header %r" % (what, header))
+    trows = []
+    for r in body:
+        keys = []
+        for c in r[:2]:
+            spans = _md_code_spans(c, what)
+            if len(spans) != 1:
+                _md_fail("%s: key cell %r is not exactly one `code` span" % (what, c))
+            keys.append(_md_ident(spans[0], what))
+        ticks = []
+        for c in r[2:]:
+            if c not in ("", _MD_TICK):
+                _md_fail("%s: cell %r is neither empty nor the tick %s" % (what, c, _MD_TICK))
+            ticks.append(c == _MD_TICK)
+        trows.append((keys[0], keys[1], ticks))
+    facts["readme_transport_header"] = header
+    facts["readme_transport_rows"] = trows
+    L.append("(* section \"Transport\" *)")
+    L.append("Record md_transport_row := { mdt_local : string; mdt_peer : string; mdt_ticks : list bool }.")
+    L.append("Definition md_transport_key_columns : list string := %s." % _strlist(header[:2]))
+    L.append("Definition md_transport_columns : list string := %s." % _strlist(header[2:]))
+    L.append("Definition md_transport_rows : list md_transport_row :=\n  [ %s ]." % ";\n    ".join(
+        "{| mdt_local := %s; mdt_peer := %s; mdt_ticks := [%s] |}" % (coq_string(a), coq_string(b), "; ".join("true" if t else "false" for t in ts))
+        for a, b, ts in trows))
+
+    # --- "Ciphers": |  | <columns> | ; first cell a plain name, the others `code` spans (the marks) or empty; then the legend line
+    what = "Ciphers table"
+    header, body, other = _md_table(_md_section(lines, "Ciphers"), what)
+    if len(header) < 2 or header[0] != "" or any(not h for h in header[1:]):
+        _md_fail("%s: expected an untitled name column and titled columns; header %r" % (what, header))
+    crows = [(_md_ident(r[0], what), [_md_code_spans(c, what) for c in r[1:]]) for r in body]
+    if len(other) != 1 or not re.fullmatch(r"(?:`\w+`\s+for\s+\w+\s*)+", other[0]):
+        _md_fail("%s: expected exactly one legend line of the form \"`X` for word ...\" next to the table, found %r" % (what, other))
+    legend = re.findall(r"`(\w+)`\s+for\s+(\w+)", other[0])
+    facts["readme_cipher_columns"] = header[1:]
+    facts["readme_cipher_rows"] = crows
+    facts["readme_cipher_legend"] = legend
+    L.append("\n(* section \"Ciphers\" *)")
+    L.append("Record md_cipher_row := { mdc_name : string; mdc_cells : list (list string) }.")
+    L.append("Definition md_cipher_columns : list string := %s." % _strlist(header[1:]))
+    L.append("Definition md_cipher_rows : list md_cipher_row :=\n  [ %s ]." % ";\n    ".join(
+        "{| mdc_name := %s; mdc_cells := [%s] |}" % (coq_string(nm), "; ".join(_strlist(c) for c in cells)) for nm, cells in crows))
+    L.append("Definition md_cipher_legend : list (string * string) := %s." % _md_pairs(legend))
+
+    # --- the `> key: text` notes of the configuration file, with their `> > subkey: text` lines, in README order
+    notes, where = [], {}
+    for i, ln in enumerate(lines):
+        m = re.fullmatch(r"\s*>\s*(>\s*)?([A-Za-z_]\w*):\s*(.*)", ln)
+        if not m:
+            if ln.lstrip().startswith(">"):
+                _md_fail("config notes: quoted line is not of the form `> key: text` / `> > key: text`: %r" % ln)
+            continue
+        nested, key, text = bool(m.group(1)), m.group(2), re.sub(r"\s+", " ", m.group(3)).strip()
+        if nested:
+            if not notes:
+                _md_fail("config notes: `> > %s` before any `> key`" % key)
+            notes[-1][2].append((key, text))
+        else:
+            if key in where:
+                _md_fail("config notes: `> %s:` documented twice" % key)
+            where[key] = i
+            notes.append((key, text, []))
+    if not notes:
+        _md_fail("config notes: no `> key: text` line")
+    facts["readme_config_notes"] = notes
+    L.append("\n(* the `> key: text` notes under \"How to run\" and their `> > key: text` sub-notes *)")
+    L.append("Record md_note := { mdn_key : string; mdn_text : string; mdn_subkeys : list (string * string) }.")
+    L.append("Definition md_config_notes : list md_note :=\n  [ %s ]." % ";\n    ".join(
+        "{| mdn_key := %s; mdn_text := %s; mdn_subkeys := %s |}" % (coq_string(k), coq_string(t), _md_pairs(sub)) for k, t, sub in notes))
+
+    # --- `> protocol: "a" | "b" | ..`
+    if "protocol" not in where:
+        _md_fail("config notes: no `> protocol:` line")
+    ptext = [t for k, t, _ in notes if k == "protocol"][0]
+    popts = []
+    for part in ptext.split("|"):
+        m = re.fullmatch(r"\s*\"([^\"]+)\"\s*", part)
+        if not m:
+            _md_fail("`> protocol:` line is not `\"name\" | \"name\" ..`: %r" % ptext)
+        popts.append(m.group(1))
+    facts["readme_protocol_options"] = popts
+    L.append("\n(* `> protocol:` *)")
+    L.append("Definition md_protocol_options : list string := %s." % _strlist(popts))
+
+    # --- the numbered list under `> mode:`:  N. `who`: options are "a"(default), "b", .. <rest>   |   N. `who`: <rest>
+    if "mode" not in where:
+        _md_fail("config notes: no `> mode:` line")
+    items = []
+    for ln in lines[where["mode"] + 1:]:
+        if not ln.strip():
+            continue
+        if ln.lstrip().startswith(">") or re.match(r"#{1,6}\s", ln):
+            break
+        m = re.fullmatch(r"\s*\d+\.\s+(.*)", ln)
+        if m:
+            items.append(m.group(1))
+        elif items:
+            items[-1] += " " + ln.strip()       # a wrapped line of the same item
+        else:
+            _md_fail("`> mode:` is not followed by a numbered list: %r" % ln)
+    if not items:
+        _md_fail("`> mode:` is not followed by a numbered list")
+    mitems = []
+    for it in items:
+        it = re.sub(r"\s+", " ", it).strip()
+        m = re.fullmatch(r"`([^`]+)`:\s*(.*)", it)
+        if not m:
+            _md_fail("mode list item is not \"`who`: text\": %r" % it)
+        who, text = m.group(1), m.group(2)
+        opts = []
+        if text.startswith("options are"):
+            text = text[len("options are"):]
+            while True:
+                mo = re.match(r"\s*\"([^\"]*)\"\s*(\(default\))?\s*(?:,|$)", text)
+                if not mo:
+                    break
+                opts.append((mo.group(1), bool(mo.group(2))))
+                text = text[mo.end():]
+            if not opts:
+                _md_fail("mode list item %r: `options are` is not followed by \"name\"[(default)], .." % who)
+        mitems.append((who, opts, text.strip()))
+    facts["readme_mode_items"] = mitems
+    L.append("\n(* the numbered list under `> mode:`; an option is (name, carries \"(default)\") *)")
+    L.append("Record md_mode_item := { mdm_who : string; mdm_options : list (string * bool); mdm_rest : string }.")
+    L.append("Definition md_mode_items : list md_mode_item :=\n  [ %s ]." % ";\n    ".join(
+        "{| mdm_who := %s; mdm_options := [%s]; mdm_rest := %s |}" % (
+            coq_string(w), "; ".join("(%s, %s)" % (coq_string(o), "true" if d else "false") for o, d in opts), coq_string(rest))
+        for w, opts, rest in mitems))
+
+    header_txt = ("(* GENERATED by tools/gen_from_source.py from /repo's working tree (README.md) -- do not edit.\n"
+                  "   The README's markdown as data: table cells, list items and notes as the text they are; a Transport cell is\n"
+                  "   `true` for the tick and `false` for an empty cell.  Nothing is interpreted or corrected here. *)\n"
+                  "From Coq Require Import String List Bool.\nImport ListNotations.\nOpen Scope string_scope.\n\n")
+    return header_txt + "\n".join(L) + "\n", facts
+
+
 def write_if_changed(path, content):
     try:
         if open(path, encoding="utf-8").read() == content:
@@ -2823,7 +3057,8 @@ def main():
     facts = {}
     errors = []
     for name, fn in [("Params", gen_params), ("Tables", gen_tables), ("Shared", gen_shared), ("ConfigTables", gen_config),
-                     ("ExitPaths", gen_exit_paths), ("LoopShapes", gen_loop_shapes), ("UdpAdapters", gen_udp_adapters)]:
+                     ("ExitPaths", gen_exit_paths), ("LoopShapes", gen_loop_shapes), ("UdpAdapters", gen_udp_adapters),
+                     ("Readme", gen_readme)]:
         try:
             text, fc = fn()
             facts.update(fc)
